@@ -140,6 +140,11 @@ func render(pl plug, calls []call, reserve bool) map[string]string {
 	if reserve {
 		// a user function with the name the generator would mint first, and a call of it
 		files["p/user.go"] = fmt.Sprintf("package p\n\nfunc %s_() int {\n\treturn 1\n}\n\nvar usesIt = %s_()\n", pl.prefix, pl.prefix)
+		if pl.name == "hash" {
+			// the hash of a map asks the keys and sort plugins for helpers although the package calls neither: the
+			// names the user declared with their prefixes are taken all the same
+			files["p/user.go"] += "\nfunc deriveKeys() int {\n\treturn 2\n}\n\nfunc deriveSort() int {\n\treturn 3\n}\n\nvar usesThem = deriveKeys() + deriveSort()\n"
+		}
 	}
 	return files
 }
